@@ -618,3 +618,106 @@ def contracts():
     c = _c17.setstate_tail_contract()
     c.prop = PROP
     return _c14_base_ss() + [c]
+
+
+# ---------------------------------------------------------------------------------------------
+# Block contract: Parameterized.__init__ from the keyword handling to the end — the object is
+# marked initialized on EVERY exit (a constructor whose keywords are refused, caught by a subclass
+# __init__, must not leave an object whose constants stay writable / whose namespace answers with the
+# class-level Parameter objects: C14 and C12)
+# ---------------------------------------------------------------------------------------------
+INIT_REPLAY = '''import sys, os
+sys.path.insert(0, os.environ.get('PYVC_REPO', '/repo'))
+import param
+bad = []
+class P(param.Parameterized):
+    c = param.Number(default=1, constant=True, bounds=(0, 10))
+    tags = param.List(default=['a'])
+class Q(P):
+    def __init__(self, **kw):
+        try:
+            super().__init__(**kw)
+        except Exception:
+            pass
+for kw in ({'c': 99}, {'nosuch': 1}, {'tags': 3}):
+    q = Q(**kw)
+    if not q._param__private.initialized:
+        bad.append('after a refused constructor keyword %r the object is not marked initialized' % (kw,))
+    try:
+        q.c = 5
+        bad.append('after a refused constructor keyword %r the constant is writable' % (kw,))
+    except TypeError:
+        pass
+    if q.param['tags'] is P.param['tags']:
+        bad.append('after a refused constructor keyword %r the instance namespace hands out the class-level Parameter' % (kw,))
+if bad:
+    print('REPRODUCED: ' + bad[0]); sys.exit(1)
+print('NOT-REPRODUCED'); sys.exit(0)
+'''
+
+
+def init_block_contract():
+    import ast as _ast
+    QUAL = "Parameterized.__init__"
+    MOD = "param.parameterized"
+
+    def configure(I):
+        def may_fail(result):
+            def h(I, st, fv, args, kwargs, ctx):
+                st.ghost["calls"] = st.ghost.get("calls", []) + [fv.data.get("qual") if hasattr(fv, "data") else "?"]
+                q = st.fork()
+                return [(st, result(I, st)), (q, Raise("$User", origin="constructor step"))]
+            return h
+        I.contracts["Parameters._setup_params"] = may_fail(lambda I, st: TupV([Sym(I.U.fresh("refs")), Sym(I.U.fresh("deps"))]))
+        I.contracts["Parameters._setup_refs"] = may_fail(lambda I, st: Conc(None))
+        I.contracts["Parameters._update_deps"] = may_fail(lambda I, st: Conc(None))
+
+    def setup(I, st):
+        W = dm.World(I, st, initialized=Conc(False))
+        return {"W": W, "env": {"self": W.obj, "params": I.alloc_dict(st), "object_count": Sym(I.U.fresh("object_count"))},
+                "symbols": {}}
+
+    def runner(I, st, info, ctx):
+        from contracts.c05 import outcomes
+        module, cname, fd = I.src.locate("%s:%s" % (MOD, QUAL))
+        idx = [i for i, x in enumerate(fd.body) if "_setup_params" in _ast.unparse(x)]
+        if not idx:
+            raise OutOfReach("the keyword handling (_setup_params) was not found in Parameterized.__init__")
+        body = [x for x in fd.body[idx[0]:] if not (isinstance(x, _ast.AugAssign) and "object_count" in _ast.unparse(x))]
+        st.env = dict(info["env"])
+        c = dict(ctx)
+        c.update({"module": module, "owner": cname, "qual": QUAL, "fnode": fd, "selfname": "self"})
+        return outcomes(I.exec_block(body, st, c))
+
+    def post(I, info, st, oc):
+        W = info["W"]
+        init = st.heap[W.private.oid].fields.get("initialized")
+        how = "the constructor fails" if isinstance(oc, Raise) else "the constructor returns"
+        return [("the object is marked initialized when %s" % how, z3.BoolVal(isinstance(init, Conc) and init.py is True)),
+                ("the keywords are handled", z3.BoolVal("Parameters._setup_params" in st.ghost.get("calls", [])))]
+    c = FunctionContract("%s:%s" % (MOD, QUAL), PROP, setup, post, configure=configure,
+                         name="Parameterized.__init__[from the keyword handling on; any step may fail]")
+    c.runner = runner
+    c.static_replay = INIT_REPLAY
+    c.static_witness = "a constructor keyword is refused and the exception is caught by a subclass __init__"
+    return c
+
+
+_c14_base_init = contracts
+
+
+def contracts():
+    return _c14_base_init() + [init_block_contract()]
+
+
+# the only writer of a linked constant is the delivery of a new source value, and it goes through
+# edit_constant (`_sync_refs` is verified for C08)
+_c14_base_sync = contracts
+
+
+def contracts():
+    from contracts import c08 as _c08
+    c = _c08.sync_refs_contract(2)
+    c.prop = PROP
+    c.clause_prefixes = ["the update runs inside", "update called", "only an exception"]
+    return _c14_base_sync() + [c]
